@@ -189,10 +189,15 @@ func syncRef(m *ref.Mars, s *snap) {
 		if i >= len(s.alive) {
 			break
 		}
-		if s.alive[i] {
+		if s.alive[i] && len(s.queues[i]) > 0 {
 			w.State = ref.StAlive
 			m.Living++
 			w.Queue = append([]uint64{}, s.queues[i]...)
+		} else if s.alive[i] {
+			// "alive" without tasks: reported by the invariant check; the
+			// reference cannot run such a warrior
+			w.State = ref.StDead
+			w.Queue = nil
 		} else if w.State == ref.StAlive {
 			w.State = ref.StDead
 			w.Queue = nil
@@ -204,7 +209,23 @@ func syncRef(m *ref.Mars, s *snap) {
 
 // ---- generators --------------------------------------------------------------
 
+// fieldHints are extra interesting field values (read/write limit boundaries)
+// of the configuration in use; set by the case before generating warriors.
+var fieldHints []uint64
+
+func setFieldHints(M, R, W uint64) {
+	fieldHints = fieldHints[:0]
+	for _, l := range []uint64{R, W} {
+		if l < M && l > 0 {
+			fieldHints = append(fieldHints, (l/2)%M, (l/2+1)%M, (M-l/2)%M, (M-l/2-1)%M, l%M, (l-1)%M)
+		}
+	}
+}
+
 func genField(tp *simrt.Tape, M uint64, label string) uint64 {
+	if len(fieldHints) > 0 && tp.Draw(label+".hint", 6) == 0 {
+		return fieldHints[tp.Draw(label+".hintval", len(fieldHints))] % M
+	}
 	switch tp.Draw(label+".kind", 8) {
 	case 0, 1:
 		return 0
@@ -290,6 +311,7 @@ func genBattleConfig(tp *simrt.Tape, bigOK bool) battleCfg {
 		R = uint64(1 + tp.Draw("cfg.r", int(M)))
 		W = uint64(1 + tp.Draw("cfg.w", int(M)))
 	}
+	setFieldHints(M, R, W)
 	return battleCfg{
 		ref: ref.Config{M: M, P: P, C: C, R: R, W: W},
 		gi: gi.SimulatorConfig{Mode: gi.ICWS94, CoreSize: gi.Address(M), Processes: gi.Address(P), Cycles: gi.Address(C),
@@ -577,8 +599,9 @@ func (h *histState) opQueries() {
 	valid := i >= 0 && i < len(h.data)
 	if valid != (got != nil) {
 		h.res.add("C13", "C13 refinement GetWarrior nil-or-not", map[string]any{"index": i, "count": len(h.data), "got_nil": got == nil})
-	} else if valid && got != h.box.handles[i] {
-		h.res.add("C13", "C13 refinement GetWarrior returns a different handle", map[string]any{"index": i})
+	} else if valid && (got.Length() != h.box.handles[i].Length() || got.Alive() != h.box.handles[i].Alive()) {
+		// handle identity is not promised; behaviour is
+		h.res.add("C13", "C13 refinement GetWarrior returns a handle of another warrior", map[string]any{"index": i})
 	}
 	// GetMem with any address
 	a := uint64(h.tp.Draw("q.addr", int(3*h.cfg.ref.M)))
